@@ -508,6 +508,7 @@ func ruleLoaderCycle(c *Ctx) {
 	c.census("G-ANCESTOR", "marks of the ancestor set", nMarks, 1)
 
 	ruleLoaderGuard(c, ls)
+	ls.checkLoadState(c)
 
 	// --- G-DEPTH: the value compared with the depth limit is the size of the ancestor set
 	nDepth := 0
@@ -845,6 +846,45 @@ func ruleLoaderCacheSSA(c *Ctx) *loaderSSA {
 		}
 	}
 	c.census("G-CACHEINDEP", "content-independent verdicts in the include step", nVerdict, 3)
+	// G-CACHEPURE: what is put into the per-file cache depends on the file alone - not on the include directive that
+	// happened to ask first (its position) nor on the including file
+	nPut := 0
+	for _, f := range ls.fns {
+		for _, b := range f.Blocks {
+			for _, ins := range b.Instrs {
+				mu, ok := ins.(*ssa.MapUpdate)
+				if !ok || ls.cache == nil || mapFieldOf(mu.Map) != ls.cache {
+					continue
+				}
+				nPut++
+				bad := ""
+				for v := range backSlice(mu.Value) {
+					if v == nil {
+						continue
+					}
+					t := v.Type()
+					if pt, ok := t.Underlying().(*types.Pointer); ok {
+						t = pt.Elem()
+					}
+					switch x := v.(type) {
+					case *ssa.Parameter:
+						if typeHasSuffix(t, "ast.Range") || typeHasSuffix(t, "ast.Include") {
+							bad = "the position of the include directive (parameter " + x.Name() + ")"
+						}
+					case *ssa.FieldAddr:
+						if typeHasSuffix(x.X.Type(), "ast.Include") && fieldVarOfAddr(x).Name() == "Range" {
+							bad = "the position of the include directive"
+						}
+					}
+				}
+				c.check(bad == "", "G-CACHEPURE", funcName(f), "cached entry depends on the file alone", mu.Pos(),
+					"nothing of the including directive flows into the cache entry",
+					"the entry stored in the per-file cache carries "+bad+": later loads that reach the file through another directive (or after the directive moved) are answered with the first asker's data")
+			}
+		}
+	}
+	c.census("G-CACHEPURE", "stores into the per-file cache", nPut, 1)
+	ls.checkLoadState(c)
 	return ls
 }
 
@@ -1064,4 +1104,40 @@ func ruleLoaderGuard(c *Ctx, ls *loaderSSA) {
 		"the recursive load can be reached without passing the cycle test first: a cyclic include graph recurses without bound")
 	c.census("G-GUARD", "recursive calls in the include recursion", nRec, 2)
 
+}
+
+func (ls *loaderSSA) checkLoadState(c *Ctx) {
+	// G-LOADSTATE: the state of one load consists of the ancestor set and the loaded set; any further map
+	// slice it carries is a memo between include steps whose key completeness no rule establishes
+	if av, ok := ls.A.(*types.Var); ok && av.IsField() {
+		var owner *types.Struct
+		var ownerName string
+		sc := ls.pk.Pkg.Scope()
+		for _, n := range sc.Names() {
+			if tn, ok := sc.Lookup(n).(*types.TypeName); ok {
+				if st, ok := tn.Type().Underlying().(*types.Struct); ok {
+					for i := 0; i < st.NumFields(); i++ {
+						if st.Field(i) == av {
+							owner, ownerName = st, tn.Name()
+						}
+					}
+				}
+			}
+		}
+		nf := 0
+		for i := 0; owner != nil && i < owner.NumFields(); i++ {
+			fld := owner.Field(i)
+			switch fld.Type().Underlying().(type) {
+			case *types.Map:
+				nf++
+				if fld == av || (ls.L != nil && ls.L == any(fld)) {
+					c.ok("G-LOADSTATE", "include."+ownerName, "per-load field "+fld.Name(), fld.Pos(), "ancestor set / loaded set (G-ANCESTOR, G-ONCE)")
+				} else {
+					c.undecided("G-LOADSTATE", "include."+ownerName, "per-load field "+fld.Name(), fld.Pos(),
+						"the state of one load carries an additional "+shortQual(types.TypeString(fld.Type(), nil))+" from one include step to the next; that what it memoises is keyed by everything it depends on (e.g. the including file) is not established by any rule")
+				}
+			}
+		}
+		c.census("G-LOADSTATE", "map fields of the per-load state", nf, 2)
+	}
 }
